@@ -1,4 +1,5 @@
 import NmVerif.Lemmas.LinalgList
+import NmVerif.Lemmas.LinalgViews
 /-
   Lemmas for the matmul part of C16: `shape_matmul` against NumPy's rule, the slices of `view::matmul`.
 -/
@@ -51,14 +52,6 @@ theorem shapeMatmul_eq_spec (sa sb : Shape) (ha : 1 ≤ sa.length) (hb : 1 ≤ s
     have h1 : getNeg? [k] 1 = some k := getNeg?_append_one [] k
     simp [shapeMatmul, specMatmulShape, h1]
 
-theorem mapM_range_some {α : Type} (n : Nat) (f : Nat → Option α) (g : Nat → α) (h : ∀ i, i < n → f i = some (g i)) :
-    (List.range n).mapM f = some ((List.range n).map g) := by
-  induction n with
-  | zero => simp
-  | succ n ih =>
-    rw [List.range_succ, List.mapM_append, ih (fun i hi => h i (by omega))]
-    simp [h n (by omega)]
-
 theorem bcIdx_eq_map_range (β s : List Nat) (h : s.length ≤ β.length) :
     bcIdx β s = (List.range s.length).map (fun i => if s.getD i 0 = 1 then 0 else β.getD (i + (β.length - s.length)) 0) := by
   apply List.ext_getElem
@@ -84,21 +77,6 @@ theorem matmulBatchIdx_eq (β b : List Nat) (x y i j : Nat) (n : Nat) (hn : n = 
   simp only [h1, h2]
   simp [List.getD_eq_getElem?_getD, List.getElem?_eq_getElem ht, List.getElem?_eq_getElem (show t + (β.length - b.length) < β.length by omega)]
   split <;> rfl
-
-theorem allIdx_one (k : Nat) : allIdx [k] = (List.range k).map (fun i => [i]) := by
-  simp only [allIdx, List.map_cons, List.map_nil]
-  induction (List.range k) with
-  | nil => rfl
-  | cons a t ih => simp [List.flatMap_cons, ih]
-
-theorem sumLast_one_shape {α : Type} (m : Arr α) (S : Shape) (K : Nat) (h : m.shape = S ++ [K]) :
-    (sumLast 1 m).shape = S := by simp [sumLast, h]
-
-theorem sumLast_one_get {α : Type} (m : Arr α) (S : Shape) (K : Nat) (h : m.shape = S ++ [K]) (d : Idx) :
-    (sumLast 1 m).get d = (List.range K).map (fun kk => m.get (d ++ [kk])) := by
-  simp [sumLast, h, allIdx_one]
-
-theorem bcIdx_single {kk k : Nat} (h : kk < k) : bcIdx [kk] [k] = [kk] := bcIdx_self (by simpa [InShape] using h)
 
 theorem matmulV1_elem (ba bb bs : Shape) (m k n : Nat) (hbs : broadcastShape ba bb = some bs) :
     ∃ r, matmulV1 (ba ++ [m, k]) (bb ++ [k, n]) = some r ∧ r.shape = bs ++ [m, n] ∧
